@@ -44,8 +44,30 @@ SPECIAL = {
 }
 
 
+_BIG = {}
+
+
+def big(name):
+    """large values, generated once per process: 'rep' = 1.5 MB of a repeated pair (compresses to ~2 kB),
+    'hex' = 2.56 MB of pseudo-random hex digits (compresses to ~1.4 MB: more than one MiB on disk even
+    in a compressed archive)"""
+    if name not in _BIG:
+        if name == 'rep':
+            _BIG[name] = 'ab' * 750000
+        elif name == 'hex':
+            import hashlib
+            _BIG[name] = ''.join(hashlib.sha256(str(i).encode()).hexdigest() for i in range(40000))
+        else:
+            raise ValueError(name)
+    return _BIG[name]
+
+
 def enc(v):
     """python value -> JSON-able"""
+    if isinstance(v, str) and len(v) >= 1500000:
+        for name in ('rep', 'hex'):
+            if len(v) == len(big(name)) and v == big(name):
+                return {'$big': name}
     if v is None or isinstance(v, (bool, int, str)):
         return v
     if isinstance(v, float):
@@ -97,6 +119,8 @@ def dec(j):
             return frozenset(dec(x) for x in j['$fs'])
         if '$f' in j:
             return float(j['$f'])
+        if '$big' in j:
+            return big(j['$big'])
         if '$o' in j:
             return SPECIAL[j['$o']]()
         if '$r' in j:
